@@ -516,14 +516,28 @@ def nested_data_plumbing(ctx: Ctx, rep: Report, rid: str = "R16.13") -> None:
     rep.floor(2, "nested field objects rebuilt from their exported data")
 
 
-def dict_builders_pass_everything(ctx: Ctx, rep: Report, rid: str = "R16.14") -> None:
+def dict_builders_pass_everything(ctx: Ctx, rep: Report, rid: str = "R16.14", factories: bool = False) -> None:
     """A builder that turns an exported dict into an object (`_dict_to_*`, taking **kwargs) hands the whole dict to the
     constructor (or to a sibling builder) on every return: a builder that passes the text alone drops note and uuid."""
     rep.rule(rid)
     base = ctx.cls("Base")
     n = 0
     for f in ctx.prog.funcs:
-        if not f.name.startswith("_dict_to") or f.node.args.kwarg is None or f.cls is None:
+        if f.node.args.kwarg is None or f.cls is None:
+            continue
+        if factories:
+            # class-level factories: Cls.fxxx(text, **kwargs) -> Cls
+            def builds(v: Optional[ast.AST]) -> bool:
+                if not isinstance(v, ast.Call):
+                    return False
+                if src(v.func) == "cls" or (isinstance(v.func, ast.Attribute) and src(v.func.value) in ("cls", f.cls.name)):
+                    return True
+                c_ = ctx.prog.resolve_name(f.module, v.func.id) if isinstance(v.func, ast.Name) else None
+                return isinstance(c_, Class) and c_.is_subclass_of(base)
+
+            if f.kind not in ("classmethod", "staticmethod") or not any(isinstance(r, ast.Return) and builds(r.value) for r in own_nodes(f.node)):
+                continue
+        elif not f.name.startswith("_dict_to"):
             continue
         kw = f.node.args.kwarg.arg
         n += 1
@@ -540,11 +554,19 @@ def dict_builders_pass_everything(ctx: Ctx, rep: Report, rid: str = "R16.14") ->
                     target_ok = isinstance(c, Class) and c.is_subclass_of(base)
                 elif isinstance(v.func, ast.Attribute) and src(v.func.value) == "self" and v.func.attr.startswith("_dict_to"):
                     target_ok = True
+                elif factories and (src(v.func) == "cls" or (isinstance(v.func, ast.Attribute) and src(v.func.value) in ("cls", f.cls.name))):
+                    target_ok = True  # cls(...) / cls.fother(...)
             if whole and target_ok:
                 rep.ok(f"{f.qualname}: {snippet(v, 40)}", f"receives **{kw}", where=where(f, r))
             else:
-                rep.violation(f.qualname, snippet(r), f"the object is not built from the whole exported dict (**{kw}): whatever the text does not carry - note, uuid - is dropped on copy() and on every re-initialising switch of the container", where(f, r), inp="acl with a Remark carrying a note; acl.copy()")
-    rep.floor(2, "dict -> object builders") if n else rep.note(f"{rid} no _dict_to_* builder in the package")
+                if factories:
+                    rep.violation(f.qualname, snippet(r), f"the factory does not hand its keyword arguments (**{kw}) to the object it builds on this path: the caller's settings (max_ncwb, platform, ...) are silently replaced by the defaults", where(f, r), inp="Wildcard.fsubnet('0.0.0.0 0.0.0.0', max_ncwb=2).max_ncwb == 16")
+                else:
+                    rep.violation(f.qualname, snippet(r), f"the object is not built from the whole exported dict (**{kw}): whatever the text does not carry - note, uuid - is dropped on copy() and on every re-initialising switch of the container", where(f, r), inp="acl with a Remark carrying a note; acl.copy()")
+    if factories:
+        rep.floor(1, "class-level factories taking **kwargs") if n else rep.note(f"{rid} no class-level factory takes **kwargs")
+    else:
+        rep.floor(2, "dict -> object builders") if n else rep.note(f"{rid} no _dict_to_* builder in the package")
 
 
 def empty_group_dispatch(ctx: Ctx, rep: Report, rid: str = "R16.12") -> None:
